@@ -11,6 +11,7 @@ import (
 // voluntary-exit domain is released only when the TCP peer address of the connection is on the
 // administrator list, whatever the request's headers claim about its origin.
 func VoluntaryExitSource() {
+	vsym.ForbidCrash() // a panic in an interceptor or handler kills the daemon
 	d := start(allowAll())
 	_ = d
 	peers := []net.IP{net.IPv4(127, 0, 0, 1), net.ParseIP(adminIP), net.IPv4(192, 168, 1, 5), net.ParseIP("::1")}
